@@ -14,7 +14,7 @@ import (
 func init() {
 	register(&Rule{Name: "QUEUE.fifo", Min: 4, Doc: "Push writes at the back cursor, Pop/Next/Values read from the front cursor; both advance by one modulo the capacity", Run: ruleQueueFifo})
 	register(&Rule{Name: "WIRE.load", Min: 10, Doc: "load-file instruction = (op, modifier, A-mode, A, B-mode, B) read from fields 0..4 in this order; dialect dispatch", Run: ruleWireLoad})
-	register(&Rule{Name: "SYMS.wire", Min: 8, Doc: "symbol tables: labels -> code line of their instruction, EQU -> its tokens, ORG/END -> start expression; code-line counter; tables built before assembling", Run: ruleSymsWire})
+	register(&Rule{Name: "SYMS.wire", Min: 6, Doc: "symbol tables: labels -> code line of their instruction, EQU -> its tokens, ORG/END -> start expression; code-line counter; tables built before assembling", Run: ruleSymsWire})
 	register(&Rule{Name: "EXPR.eval", Min: 4, Doc: "expression evaluation: tokens concatenated in order after sign folding, booleans map to 1/0, integer result parsed from the evaluator's value", Run: ruleExprEval})
 	register(&Rule{Name: "CYCLE.detect", Min: 2, Doc: "the EQU cycle detector only recurses into nodes not yet on its path (so it terminates) and reports a revisit as a cycle", Run: ruleCycleDetect})
 	register(&Rule{Name: "FOR.labels", Min: 2, Doc: "mangled block labels are emitted once, before the first body instruction", Run: ruleForLabels})
@@ -513,6 +513,10 @@ func ruleCycleDetect(w *World, r *RuleResult) {
 		return
 	}
 	d := newDedup(r)
+	if len(fn.Params) < 3 {
+		r.undecided("shape", w.Pos(fn.Pos()), "the cycle detector is not the recursive (node, graph, path) walk these clauses describe; its completeness is not decided for this shape")
+		return
+	}
 	node := fn.Params[0].Name()
 	visited := fn.Params[2].Name()
 	n := 0
